@@ -53,9 +53,9 @@ def node_to_D(n):
                     children=[node_to_D(c) for c in n.children])
 
 
-def run_build(cases, shards=12, timeout=600):
+def run_build(cases, shards=12, timeout=600, min_shard=20):
     lines = [json.dumps(c) for c in cases]
-    return treecorr.run_isolated(os.path.join(BUILD, "harness"), ["build"], lines, shards=shards, timeout=timeout)
+    return treecorr.run_isolated(os.path.join(BUILD, "harness"), ["build"], lines, shards=shards, timeout=timeout, min_shard=min_shard)
 
 
 def norm_json(v):
